@@ -9,7 +9,7 @@ import json
 from concurrent.futures import ThreadPoolExecutor
 
 
-def _par(ctx, area, lines, chunk=20000):
+def _par(ctx, area, lines, chunk=2500):
     """run an oracle area in parallel chunks (each harness process is independent)"""
     parts = [lines[i:i + chunk] for i in range(0, len(lines), chunk)] or [[]]
     with ThreadPoolExecutor(max_workers=14) as ex:
@@ -88,19 +88,24 @@ def _split_args(name, b):
     return parts
 
 
-def _expand_calls(ctx, trees, depth=10):
+def _expand_calls(ctx, trees, depth=120):
     """replace every call node `F un name args` of the model's trees by `G un name k <tree of arg 1> … <tree of arg k>`
     (trees again from the Lean driver), so that the harness can hand VALUES to the library's functions"""
-    toks = [t.split(" ") for t in trees]
+    trees = list(trees)
+    todo = [i for i, t in enumerate(trees) if t.startswith("F ") or " F " in t]
     for _ in range(depth):
-        want = set()
-        for tk in toks:
-            for i, w in enumerate(tk):
-                if w == "F":
-                    for a in _split_args(_unhex(tk[i + 2]).decode("latin-1"), _unhex(tk[i + 3])):
-                        want.add(_hex(a))
-        if not want:
+        if not todo:
             break
+        toks = {i: trees[i].split(" ") for i in todo}
+        want = set()
+        split = {}
+        for i, tk in toks.items():
+            for j, w in enumerate(tk):
+                if w == "F":
+                    key = (tk[j + 2], tk[j + 3])
+                    if key not in split:
+                        split[key] = [_hex(a) for a in _split_args(_unhex(key[0]).decode("latin-1"), _unhex(key[1]))]
+                    want.update(split[key])
         want = sorted(want)
         outs = ctx.run_model("drv_c09", ["t " + h for h in want])
         if outs is None:
@@ -108,26 +113,27 @@ def _expand_calls(ctx, trees, depth=10):
         sub = {}
         for h, o in zip(want, outs):
             sub[h] = {"err": ["X"], "empty": ["M"], "panic": ["P"], "bad-op": ["X"]}.get(o) or o.split(" ")
-        new = []
-        for tk in toks:
-            if "F" not in tk:
-                new.append(tk)
-                continue
+        nxt = []
+        for i, tk in toks.items():
             out = []
-            i = 0
-            while i < len(tk):
-                if tk[i] == "F":
-                    parts = _split_args(_unhex(tk[i + 2]).decode("latin-1"), _unhex(tk[i + 3]))
-                    out += ["G", tk[i + 1], tk[i + 2], str(len(parts))]
+            j = 0
+            again = False
+            while j < len(tk):
+                if tk[j] == "F":
+                    parts = split[(tk[j + 2], tk[j + 3])]
+                    out += ["G", tk[j + 1], tk[j + 2], str(len(parts))]
                     for a in parts:
-                        out += sub[_hex(a)]
-                    i += 4
+                        out += sub[a]
+                        again = again or "F" in sub[a]
+                    j += 4
                 else:
-                    out.append(tk[i])
-                    i += 1
-            new.append(out)
-        toks = new
-    return [" ".join(tk) for tk in toks]
+                    out.append(tk[j])
+                    j += 1
+            trees[i] = " ".join(out)
+            if again:
+                nxt.append(i)
+        todo = nxt
+    return trees
 
 
 def _val(ctx, n, only=None):
